@@ -111,6 +111,26 @@ def strategy_(draw: Any) -> Case:
             if len(flds) <= len(nums):
                 for fl, k in zip(flds, nums):
                     fl.number = k
+        # an ALIAS whose name is a message name + `_` + the number of one of that message's array fields (`Ab1_21` next to
+        # message Ab1 with an array numbered 21): distinct from every other name in every documented case form (`Ab121`, `AB1_21`)
+        taken = {it.name.replace("_", "").lower() for f in unit.files for it in f.items if hasattr(it, "name")}
+        for m in tops[: len(names)]:
+            arrs = [fl for fl in m.fields() if isinstance(fl.type, TArray)]
+            if not arrs or not draw(st.booleans()):
+                continue
+            fl = arrs[draw(st.integers(0, len(arrs) - 1))]
+            an = f"{m.name}_{fl.number}"
+            if an.replace("_", "").lower() in taken:
+                continue
+            taken.add(an.replace("_", "").lower())
+            a = Alias(an, TArray(TBase("byte"), draw(st.integers(1, 4))))
+            f = file_of(m)
+            f.items.insert([k for k, x in enumerate(f.items) if x is m][0], a)
+            free = [k for k in range(1, 256) if all(x.number != k for x in m.fields())]
+            if free and len(m.fields()) < 200:
+                m.items.append(Field("adv_alias", TRef(an, a), free[0]))
+            hz.append("alias_named_message_number")
+        set_parents(unit)
         if not scoping.retext(unit):
             raise AssertionError("rename broke references")
     if flip("type_field", 1):
